@@ -420,13 +420,33 @@ def check_transpose(rep, pdb, walks, key):
         if okp:
             r = for_range(ctx, pre[0].loops[0])
             j = r[0]
-            okp = r[1:5] == (num(0), ROWS, False, False) and pre[0].index == lin_add(j, num(1)) and pre[0].value == lin_add(("idx", ("field", at, "col_start"), j), ("idx", cnt, j))
+            rec = pre[0].value == lin_add(("idx", ("field", at, "col_start"), j), ("idx", cnt, j))
+            if not rec and pre[0].value[0] == "var":
+                # a running total instead of reading the previous start back: `total += count[j]; at.col_start[j+1] = total`, total from 0
+                # (at.col_start[0] is 0 from the zero-filled allocation)
+                T_ = pre[0].value
+                acc = [e for e in effs if e.kind == "assignop" and e.op == "+=" and e.target == T_ and e.loops and e.loops[0] is pre[0].loops[0]]
+                others = [e for e in effs if e.target == T_ and e not in acc]
+                tb = ctx.binds.get(T_[1])
+                rec = len(acc) == 1 and not others and acc[0].value == ("idx", cnt, j) and _pos(acc[0].node) < _pos(pre[0].node) and \
+                    tb is not None and tb.init is not None and ctx.term(tb.init) == num(0) and not any(a is pre[0].loops[0] for a in ancestors(tb.node))
+            okp = r[1:5] == (num(0), ROWS, False, False) and pre[0].index == lin_add(j, num(1)) and rec
         # the scatter's counters: all zero, one per row, when the scatter starts (the count vector reset by assignment or
         # fill, or a fresh vector)
         cnt2 = c2.target
         zero_rows = lambda t: t is not None and t[0] == "call" and str(t[1]).endswith("from_elem") and len(t) == 4 and t[2:4] == (num(0), ROWS)
         start = value_before(ctx, cnt2, sr.loops[0]) if cnt2[0] == "var" else None
         okr = bool(okp) and zero_rows(start) and _pos(pre[0].loops[0]) < _pos(sr.loops[0])
+        if okp and not okr and cnt2[0] == "var":
+            # the counters zeroed in place between the prefix sums and the scatter: `count.fill(0)` (a loop storing 0 over the whole vector)
+            zs = [e for e in effs if e.kind == "set" and e.target == cnt2 and e.value == num(0) and len(e.loops) == 1
+                  and _pos(pre[0].loops[0]) < _pos(e.loops[0]) < _pos(sr.loops[0])]
+            if len(zs) == 1:
+                rz = for_range(ctx, zs[0].loops[0])
+                cb2 = ctx.binds.get(cnt2[1])
+                ci2 = ctx.term(cb2.init) if cb2 is not None and cb2.init is not None else None
+                full = rz is not None and rz[1] == num(0) and rz[2] in (ROWS, ("len", cnt2)) and not rz[3] and zs[0].index == rz[0]
+                okr = full and ci2 is not None and ci2[0] == "call" and str(ci2[1]).endswith("from_elem") and ci2[3] == ROWS
         # ... and the prefix sums are complete before: nothing else writes cnt2 or at.col_start inside the scatter except the bump
         rr = ("idx", RI, j2)
         idx = lin_add(("idx", ("field", at, "col_start"), rr), ("idx", cnt2, rr))
@@ -435,6 +455,20 @@ def check_transpose(rep, pdb, walks, key):
         oks = sr.kind == "set" and sr.target == ("field", at, "row_index") and sr.value == i2 and sr_idx == idx and \
             sv.kind == "set" and sv.target == ("field", at, "val") and sv.value == ("idx", VAL, j3) and sv_idx == idx and \
             c2.kind == "upd" and c2.index == rr and c2.value == num(1) and c2.op == "+=" and _pos(c2.node) > _pos(sv.node) and _pos(c2.node) > _pos(sr.node)
+        if okc and okp and not oks and sr_idx == sv_idx and sr_idx[0] == "idx" and sr_idx[1][0] == "var" and sr_idx[2] == rr:
+            # a next-free-slot array instead of start + count: `next = at.col_start[..rows].to_vec()`, slot next[r], then next[r] += 1
+            nx = sr_idx[1]
+            nb_ = ctx.binds.get(nx[1])
+            ni = ctx.term(nb_.init) if nb_ is not None and nb_.init is not None else None
+            CSAT = ("field", at, "col_start")
+            copy = ni is not None and ni[0] == "call" and str(ni[1]).endswith(("to_vec", "to_owned")) and ni[2][0] == "idx" and ni[2][1] == CSAT and \
+                ni[2][2][0] == "struct" and str(ni[2][2][1]).endswith("RangeTo") and ni[2][2][2] == ("end", ROWS)
+            after_prefix = nb_ is not None and _pos(pre[0].loops[0]) < _pos(nb_.node) < _pos(sr.loops[0])
+            writes = [e for e in effs if e.target == nx]
+            oks = copy and after_prefix and sr.kind == "set" and sr.target == ("field", at, "row_index") and sr.value == i2 and \
+                sv.kind == "set" and sv.target == ("field", at, "val") and sv.value == ("idx", VAL, j3) and \
+                c2.kind == "upd" and c2.target == nx and c2.index == rr and c2.value == num(1) and c2.op == "+=" and _pos(c2.node) > _pos(sv.node) and _pos(c2.node) > _pos(sr.node) and len(writes) == 1 and writes[0].node is c2.node
+            okr = okr or oks
         ok = okc and okp and okr and oks
         det = "count pass=%s prefix over rows=%s counters reset=%s scatter (same idx for row_index and val, source column stored, counter bumped after)=%s" % (okc, okp, okr, oks)
     rep.add(key, rule, ok, fn["body"], det, where=loc(fn["body"]))
